@@ -264,6 +264,43 @@ def run_wideint_writes(cases, res):
             res.fail(c, 'model Store.set_val_real (exact rational factor) disagrees with the implementation although the Spec agrees', expected=str(mo)[:200], got=(got[2], got[0]))
             res.failures[-1]['no_input'] = True
 
+def gen_mixed_decimal(rng):
+    """a list that starts with a plain number and holds a Decimal LATER which is NOT a double: within 1e-25 of a representable value
+    (the write is inexact: inaccuracy) or just below the upper bound (no overflow)"""
+    s, nw, nf = S.random_format(rng, max_word=16); nf = max(0, min(nf, 12)); lo, hi = S.fmt_bounds(s, nw)
+    kind = rng.choice(['near_code', 'near_code', 'below_upper'])
+    c = rng.randint(max(lo, 1 if hi >= 1 else lo), hi) if hi >= 1 else 0
+    return {'mixed_decimal': kind, 's': s, 'nw': nw, 'nf': nf, 'r': rng.choice(['floor', 'trunc', 'fix', 'around']), 'o': rng.choice(OMODES), 'c': c,
+            'first': rng.choice(['float', 'int', 'np.float64']), 'route': rng.choice(['ctor', 'call', 'set_val'])}
+
+def run_mixed_decimal(cases, res):
+    fx = lib.impl(); import numpy as np
+    from decimal import Decimal
+    for c in cases:
+        s, nw, nf = c['s'], c['nw'], c['nf']; lo, hi = S.fmt_bounds(s, nw)
+        if hi < 1: continue
+        code = c['c'] if c['mixed_decimal'] == 'near_code' else hi
+        eps = Decimal('1e-25')
+        import decimal
+        with decimal.localcontext() as ctx_:
+            ctx_.prec = 90      # (the default 28 digits would round the tiny part away)
+            d = Decimal(code) / Decimal(2 ** nf) + (eps if c['mixed_decimal'] == 'near_code' else (Decimal(1) / Decimal(2 ** nf) - eps))     # (code + tiny, or the next grid point - tiny: both round down to `code`)
+        first = {'float': 0.0, 'int': 0, 'np.float64': np.float64(0.0)}[c['first']]
+        val = [first, d]; rec = S.Recorder()
+        try:
+            if c['route'] == 'ctor': x = fx.Fxp(val, s, nw, nf, rounding=c['r'], overflow=c['o'], callbacks=[rec])
+            else:
+                x = fx.Fxp([0, 0], s, nw, nf, rounding=c['r'], overflow=c['o'], callbacks=[rec]); rec.log.clear()
+                (x(val) if c['route'] == 'call' else x.set_val(val))
+            got = (lib.codes_of(x), lib.status3(x), sorted(set(rec.log)))
+        except Exception as e:
+            res.fail(c, 'C04: a write of a list holding a Decimal raised %s' % lib.exc_name(e), got=str(e)[:200]); continue
+        want_code = code if c['r'] != 'around' or c['mixed_decimal'] == 'near_code' else (hi if c['o'] == 'saturate' else None)
+        res.count('M:mixed-lists-with-a-Decimal', key=repr(c), nontrivial=True)
+        if c['r'] == 'around' and c['mixed_decimal'] == 'below_upper': continue      # (rounds up to hi + 1: an overflow, not this observation)
+        if got[0] != [0, code] or got[1] != (False, False, True) or got[2] != ['change', 'inacc']:
+            res.fail(c, 'C04: flags / callbacks of a write of a mixed list whose Decimal element is not representable (it rounds down to a code inside the range) are not "inaccuracy only"', expected=([0, code], (False, False, True), ['change', 'inacc']), got=got)
+
 def run_resize_keep(cases, res):
     """x.resize(..., restore_val=False): the raw codes are KEPT and written into the new format like any raw write - flags and callbacks
     report what that write does to them (a code beyond the new range overflows / underflows; the stored code then differs: inexact)"""
@@ -301,6 +338,7 @@ def shard(shard, nshards, rng, tier, extra):
     run_complex_writes([gen_complex_write(rng) for _ in range((1800 if tier == 'quick' else 12000) // nshards)], res)
     run_wideint_writes([gen_wideint_write(rng) for _ in range((1800 if tier == 'quick' else 12000) // nshards)], res)
     run_resize_keep([gen_resize_keep(rng) for _ in range((900 if tier == 'quick' else 8000) // nshards)], res)
+    run_mixed_decimal([gen_mixed_decimal(rng) for _ in range((900 if tier == 'quick' else 8000) // nshards)], res)
     return res
 
 def run(seed, tier):
@@ -328,5 +366,6 @@ def replay(payload):
     if 're' in payload['case']: run_complex_writes([payload['case']], res)
     elif 'wide' in payload['case']: run_wideint_writes([payload['case']], res)
     elif 'keep_codes' in payload['case']: run_resize_keep([payload['case']], res)
+    elif 'mixed_decimal' in payload['case']: run_mixed_decimal([payload['case']], res)
     else: run_batch([payload['case']], res)
     return {'holds': not res.failures, 'failures': res.failures}
